@@ -76,6 +76,11 @@ def gate_cases(run: Run, n_each):
         v = [math.cos(th_), math.sin(th_)]; v.insert(k_, 0.0)
         for al_, ph_ in [(math.pi, 0.0), (math.pi, math.pi / 2), (math.pi, -math.pi / 2), (math.pi, 1.0), (math.pi - 1e-3, 0.3), (-math.pi + 1e-3, -1.2)]:
             corpus.append(BlochSphereRotation(0, tuple(v), al_, ph_))
+    # rotations about exactly +-x, +-y, +-z (named and anonymous) with many angles: the arguments of acos reach 1 up to rounding
+    for _ in range(run.n(120, 1500)):
+        k_ = rng.randrange(3); v = [0.0, 0.0, 0.0]; v[k_] = rng.choice([1.0, -1.0])
+        th_ = rng.uniform(-math.pi, math.pi)
+        corpus.append(BlochSphereRotation(0, tuple(v), th_, rng.choice([0.0, 0.4])) if rng.random() < 0.5 else getattr(dg, ["Rx", "Ry", "Rz"][k_])(0, Float(th_)))
     for o in corpus:
         for d in O.DECOMPOSERS:
             cases.append({"d": d, "s": W.w_stmt(ControlledGate(1, o)) if d == "CNOT" else W.w_stmt(o), "band": False})
